@@ -326,6 +326,8 @@ def gen_history(seed, tier, prop, kinds_allowed):
             batches, shape = _partition(r, n)
             scn['ops'] = [['u', a, b] for a, b in batches]
     scn['split_shape'] = shape
+    if rng.stream(seed, 'recycle').random() < 0.15:
+        scn['recycle'] = True
     # knobs: clock script and worker counts (always under a simulated clock)
     nb = len(batches)
     scn['clock'] = gen_clock(kn, nb)
@@ -753,6 +755,7 @@ def _execute_history(scn):
     clock = env.SimClock(scn.get('clock', {}).get('durs', ()))
     mem = env.SimMemory()
     subject = _mk(scn, built=not scn.get('start_unbuilt'))
+    recycle_bufs = None
     accepted = []
     violation = None
     inconclusive = False
@@ -774,8 +777,24 @@ def _execute_history(scn):
             if op[0] == 'u':
                 a, b = op[1], op[2]
                 before = len(env.KLOG)
+                ta, da = traces[a:b], data[a:b]
+                if scn.get('recycle'):
+                    # the caller owns ONE batch buffer and refills it for every update (an acquisition loop, a reader recycling its buffer):
+                    # whatever update() needs from a batch it must have consumed when it returns
+                    if recycle_bufs is None:
+                        nb_max = max(o[2] - o[1] for o in scn['ops'] if o[0] == 'u')
+                        recycle_bufs = [np.empty((nb_max,) + traces.shape[1:], traces.dtype), np.empty((nb_max,) + data.shape[1:], data.dtype)]
+                    recycle_bufs[0][:b - a] = ta
+                    recycle_bufs[1][:b - a] = da
+                    ta, da = recycle_bufs[0][:b - a], recycle_bufs[1][:b - a]
                 try:
-                    subject.update(traces[a:b], data[a:b])
+                    try:
+                        subject.update(ta, da)
+                    finally:
+                        if recycle_bufs is not None:
+                            recycle_bufs[0].fill(1)
+                            recycle_bufs[1].fill(1)
+                            probe('batch_buffer_recycled')
                 except Exception as e:
                     # a valid batch must be accepted: every 'u' batch is shape-compatible by construction, so the arbiter is the ONE-BATCH twin
                     # (all rows so far in a single update).  A fresh object replaying the same calls would reproduce a refusal that depends on
